@@ -3,3 +3,59 @@
 
 // Contracts (comment-only; no code). Checked by /verif/engine (govc) against the go/ssa of this package.
 package service
+
+// ---------------------------------------------------------------- end-of-block closures
+// EndBlocker$3 = newRequestBatchHandler(requestContextID, requestContext): called for every entry of the new-batch queue at this height,
+// with the stored context (or the zero value if it is missing).
+//@ func EndBlocker$3
+//@ props C06 C09 C01 C11 C10 C12
+//@ modifies raw, bal, cblog
+//@ requires wf: WF(raw)
+//@ requires called_with_the_stored_context: ctxFound(raw, requestContextID) && requestContext == ctxOf(raw, requestContextID) && rng_RequestContext(requestContext)
+//@ requires providers_bounded: len(requestContext.Providers) <= 32767
+//@ ensures [C11] queue_entry_consumed: allBase(old(raw), requestContext.ServiceName, requestContext.Providers) || requestContext.State != RUNNING ==>
+//@      raw[KNewQ(ctxHeight(ctx), requestContextID)] == bnil && raw[KNewH(requestContextID)] == bnil
+//@ ensures [C11] queue_entry_consumed_when_a_price_is_not_in_base_denom: !allBase(old(raw), requestContext.ServiceName, requestContext.Providers) && requestContext.State == RUNNING ==>
+//@      raw[KNewQ(ctxHeight(ctx), requestContextID)] == bnil && raw[KNewH(requestContextID)] == bnil
+//@ ensures [C09] not_running_means_no_batch: requestContext.State != RUNNING ==> bal == old(bal) && cblog == old(cblog) &&
+//@      raw == old(raw)[KNewQ(ctxHeight(ctx), requestContextID) := bnil][KNewH(requestContextID) := bnil]
+//@ ensures [C06] skipped_without_charge_when_too_few_eligible: (let rc := requestContext in
+//@      let F := filtIt(old(raw), ctxTime(ctx), rc.ServiceName, rc.Timeout, rc.ServiceFeeCap, rc.Consumer, rc.Providers, len(rc.Providers)) in
+//@      rc.State == RUNNING && allBase(old(raw), rc.ServiceName, rc.Providers) && !(len(F) > 0 && len(F) >= rc.ResponseThreshold) ==> bal == old(bal) && cblog == old(cblog) &&
+//@      raw == old(raw)[KCtx(requestContextID) := enc_RequestContext(rc[BatchCounter := wrap_u64(rc.BatchCounter + 1)][BatchState := BATCHRUNNING][BatchRequestCount := 0][BatchResponseCount := 0][BatchResponseThreshold := rc.ResponseThreshold])]
+//@             [KExpQ(wrap_i64(ctxHeight(ctx) + rc.Timeout), requestContextID) := idVal(requestContextID)][KExpH(requestContextID) := hVal(wrap_i64(ctxHeight(ctx) + rc.Timeout))]
+//@             [KNewQ(ctxHeight(ctx), requestContextID) := bnil][KNewH(requestContextID) := bnil])
+//@ ensures [C06,C09,C01] paused_without_requests_or_charge_when_unpaid: (let rc := requestContext in
+//@      let F := filtIt(old(raw), ctxTime(ctx), rc.ServiceName, rc.Timeout, rc.ServiceFeeCap, rc.Consumer, rc.Providers, len(rc.Providers)) in
+//@      let Tot := totIt(old(raw), ctxTime(ctx), rc.ServiceName, rc.Timeout, rc.ServiceFeeCap, rc.Consumer, rc.Providers, len(rc.Providers)) in
+//@      rc.State == RUNNING && allBase(old(raw), rc.ServiceName, rc.Providers) && len(F) > 0 && len(F) >= rc.ResponseThreshold && !rc.SuperMode && !canPay(old(bal), rc.Consumer, Tot) ==> bal == old(bal) &&
+//@      raw == old(raw)[KCtx(requestContextID) := enc_RequestContext(rc[BatchState := BATCHCOMPLETED][State := PAUSED])][KNewQ(ctxHeight(ctx), requestContextID) := bnil][KNewH(requestContextID) := bnil])
+//@ ensures [C06,C01,C08,C10] issues_to_exactly_the_eligible_and_charges_their_total: (let rc := requestContext in
+//@      let F := filtIt(old(raw), ctxTime(ctx), rc.ServiceName, rc.Timeout, rc.ServiceFeeCap, rc.Consumer, rc.Providers, len(rc.Providers)) in
+//@      let Tot := totIt(old(raw), ctxTime(ctx), rc.ServiceName, rc.Timeout, rc.ServiceFeeCap, rc.Consumer, rc.Providers, len(rc.Providers)) in
+//@      rc.State == RUNNING && allBase(old(raw), rc.ServiceName, rc.Providers) && len(F) > 0 && len(F) >= rc.ResponseThreshold && (rc.SuperMode || canPay(old(bal), rc.Consumer, Tot)) ==>
+//@      bal == (rc.SuperMode ? old(bal) : bankMove(old(bal), rc.Consumer, requestAcc, Tot)) && cblog == old(cblog) &&
+//@      raw == issueIt(old(raw), ctxTime(ctx), ctxHeight(ctx), requestContextID, rc, wrap_u64(rc.BatchCounter + 1), F, len(F))
+//@             [KCtx(requestContextID) := enc_RequestContext(rc[BatchCounter := wrap_u64(rc.BatchCounter + 1)][BatchState := BATCHRUNNING][BatchResponseCount := 0][BatchRequestCount := wrap_u32(len(F))][BatchResponseThreshold := rc.ResponseThreshold])]
+//@             [KExpQ(wrap_i64(ctxHeight(ctx) + rc.Timeout), requestContextID) := idVal(requestContextID)][KExpH(requestContextID) := hVal(wrap_i64(ctxHeight(ctx) + rc.Timeout))]
+//@             [KNewQ(ctxHeight(ctx), requestContextID) := bnil][KNewH(requestContextID) := bnil])
+
+// EndBlocker$1 = expiredRequestHandler(requestID, request): called for every still-pending request of an expired batch.
+//@ func EndBlocker$1
+//@ props C02 C04 C08 C16 C03
+//@ modifies raw, bal, supply
+//@ preserves wf: WF(raw)
+//@ preserves [C03] deposits_in_custody: depInv(raw, bal)
+//@ requires called_with_the_stored_request: requestFound(raw, requestID) && request == requestOf(raw, requestID)
+//@ requires [C04] binding_of_request_exists: bindFound(raw, reqSvc(raw, requestID), reqProv(raw, requestID))
+//@ requires consumer_ordinary: ordinary(reqConsumer(raw, requestID))
+//@ ensures [C02,C08,C16] no_longer_pending_in_either_index: raw[KActID(requestID)] == bnil && raw[KActB(request.ServiceName, request.Provider, request.ExpirationHeight, requestID)] == bnil
+//@ ensures [C04,C07] super_mode_neither_slashes_nor_refunds: request.SuperMode ==> bal == old(bal) && supply == old(supply) &&
+//@      raw == old(raw)[KActB(request.ServiceName, request.Provider, request.ExpirationHeight, requestID) := bnil][KActID(requestID) := bnil]
+//@ ensures [C04,C02] timeout_slashes_the_binding_and_refunds_the_consumer: !request.SuperMode ==> (let burn := slashBurn(old(raw), requestID) in
+//@      let slashed := !hasNeg(bindOf(old(raw), request.ServiceName, request.Provider).Deposit, burn) && canPay(old(bal), depositAcc, burn) in
+//@      let bal1 := (slashed ? bankBurn(old(bal), depositAcc, burn) : old(bal)) in
+//@      supply == (slashed ? supplyBurn(old(supply), burn) : old(supply)) &&
+//@      bal == (canPay(bal1, requestAcc, request.ServiceFee) ? bankMove(bal1, requestAcc, request.Consumer, request.ServiceFee) : bal1))
+//@ ensures [C16,C15] touches_only_the_binding_and_the_two_markers: forall k Key :: {raw[k]}
+//@      (k != KBind(request.ServiceName, request.Provider) && k != KActID(requestID) && k != KActB(request.ServiceName, request.Provider, request.ExpirationHeight, requestID)) ==> raw[k] == old(raw)[k]
